@@ -31,10 +31,22 @@ for pid, name, status, detail in res:
     if len(what) > 230:
         what = what[:227] + "..."
     rows.append((pid, name.replace(".patch", ""), status, rule, what))
+benign = [r for r in rows if r[1].startswith("benign/")]
+rows = [r for r in rows if not r[1].startswith("benign/")]
 rows.sort(key=lambda r: (r[0], not r[1].startswith("seeded/"), r[1]))
 out = ["| check | change | result | first rule reporting | what the change does (seeds) |", "|---|---|---|---|---|"]
 for r in rows:
     out.append("| %s | `%s` | %s | %s | %s |" % r)
+out.append("")
+out.append("Behaviour-preserving controls (`controls/<id>/*.patch`; `agent_*` = written by sub-agents, the rest by me), silent / total per check:")
+per = {}
+for r in benign:
+    k = per.setdefault(r[0], [0, 0])
+    k[1] += 1
+    if r[2] == "silent":
+        k[0] += 1
+out.append(", ".join("%s %d/%d" % (k, v[0], v[1]) for k, v in sorted(per.items())) + ".")
+rows = rows + benign
 n = len(rows)
 caught = sum(1 for r in rows if r[2] in ("caught", "silent"))
 undecided = sum(1 for r in rows if r[2] == "not decided")
